@@ -7,13 +7,14 @@ interpreter (harness `vh asp`), compares and classifies.
 import functools
 import json
 import os
+import time
 import warnings
 
 import vlib
 from engines import register
 
 # ------------------------------------------------------------------------------------------ rendering
-CH = {"e9": "é"}
+CH = {"e9": "é", "c9": "É"}
 UNDEF = "<undef>"
 
 
@@ -91,6 +92,9 @@ BIN_SRC = {"add": "{x} + {y}", "eq": "{x} == {y}", "ne": "{x} != {y}", "lt": "{x
            "zip": "zip({x}, {y})", "union": "{x} | {y}"}
 COMPR_SRC = {"copy": "[e for e in {x}]", "filt": "[e for e in {x} if e]", "wrap": "[[e] for e in {x}]",
              "dbl": "[e + e for e in {x}]"}
+STR_SRC = {"upper": "{x}.upper()", "lower": "{x}.lower()", "split": '{x}.split(",")', "replace": '{x}.replace("a", "c")',
+           "find": '{x}.find("B")', "rfind": '{x}.rfind(",")', "count": '{x}.count("a")', "startswith": '{x}.startswith("a")',
+           "endswith": '{x}.endswith("B")', "strip": '{x}.strip("aB")', "partition": '{x}.partition(",")', "join": '",".join({x})'}
 HOF_SRC = {"map": "map(lambda e: [e], {x})", "filter": "filter(lambda e: e, {x})",
            "reduce": "reduce(lambda u, w: u + w, {x})"}
 
@@ -138,6 +142,8 @@ def stmt_lines(st, M):
         return ["%s = %s" % (a, BIN_SRC[f].format(x=x, y=lit))]
     if k == "hof":
         return ["%s = %s" % (a, HOF_SRC[f].format(x=x))]
+    if k == "strm":
+        return ["%s = %s" % (a, STR_SRC[f].format(x=x))]
     if k == "forlit":
         return ["for i in range(2):", "    %s += [%s]" % (a, lit_src(M.lits[n - 1]))]
     raise vlib.Infra("unknown statement kind %r" % (st,))
@@ -228,6 +234,7 @@ def fresh_list_result(st):
 
 
 STR_SLICE_SIG = "C16 str-slice non-ASCII sliced-by-bytes (bounds counted in characters)"
+STR_METHOD_SIG = "C16 str.%s non-ASCII byte-offset"
 NIL_SIG = "C16 builtin=filter/comprehension empty-list-result is-nil (json null, != [])"
 
 
@@ -267,7 +274,6 @@ def run_expr(ctx, stats):
         if ctx.quick:
             cases = vlib.tlc(ctx, "AspExpr", "GEN_AspExpr_quick.cfg", workers=8).cases
         else:
-            vlib.tlc(ctx, "AspExpr", "MC_AspExpr.cfg", workers=8)
             cases = vlib.tlc(ctx, "AspExpr", "GEN_AspExpr_thorough.cfg", workers=8, timeout=3000).cases
             # tlc -simulate evaluates the invariant on every successor of every visited state: ~700 cases per trace
             cases += vlib.tlc(ctx, "AspExpr", "SIM_AspExpr.cfg", workers=1, simulate=40, depth=5, seed=ctx.seed,
@@ -293,7 +299,9 @@ def run_expr(ctx, stats):
             ok = c["expect"]["k"] == "err"
         if not ok:
             raise vlib.Infra("AspExpr.tla disagrees with CPython on `%s`: spec %s" % (c["src"], c["expect"]))
+    t0 = time.time()
     obs = vlib.run_vh(ctx, "asp", [dict(id=c["id"], src="r = " + c["src"] + "\n", probes=["r"]) for c in cases])
+    vlib.log("[asp] %d expressions through the interpreter in %.1fs" % (len(cases), time.time() - t0))
     for c in cases:
         o = obs.get(c["id"])
         if o is None:
@@ -381,7 +389,7 @@ def run_heap(ctx, stats):
         # tlc -simulate prints every successor of every visited state (prefix-closed): ~100-200 cases per step
         # quick: all programs of 2 statements + all of the shape literal; anything; mutation (aliasing probes)
         by, note = gen_heap(ctx, "h", ["GEN_AspHeap_2.cfg", "GEN_AspHeap_3m.cfg"], ["GEN_AspHeap_2.cfg", "GEN_AspHeap_3.cfg"],
-                            "SIM_AspHeap.cfg", 3, 40, 7)
+                            "SIM_AspHeap.cfg", 1, 20, 7)
     M = Menus(note)
     cases = [c for c in by.values() if c["prog"]]
     for i, c in enumerate(cases):
@@ -390,6 +398,7 @@ def run_heap(ctx, stats):
         c["flat"], c["defs"] = heap_sources(c["prog"], M, c["names"])
         c["want"] = snapshot(c["expect"])
     # oracle
+    vlib.log("[asp] %d programs rendered" % len(cases))
     for c in cases:
         try:
             py = cpython(c["flat"], c["names"])
@@ -401,7 +410,9 @@ def run_heap(ctx, stats):
     for c in cases:
         req.append(dict(id=c["id"] + "b", src=c["flat"], probes=c["names"]))
         req.append(dict(id=c["id"] + "d", defs=c["defs"], src="r = prog()\n", probes=["r"]))
+    t0 = time.time()
     obs = vlib.run_vh(ctx, "asp", req)
+    vlib.log("[asp] %d programs x 2 modes through the interpreter in %.1fs" % (len(cases), time.time() - t0))
     # observations per (program, mode): None = rejected, else {var: value}
     real = {}
     for c in cases:
@@ -450,9 +461,9 @@ def run_heap(ctx, stats):
                           chain=[dict(prog=x["prog"], expect=x["expect"], algo=x["algo"]) for x in chain])
             singles = ["aug", "sort", "strict"] + (["fold"] if mode == "d" else [])
             hit = [k for k in singles if algo[k] is not None and same(got, algo[k])]
-            srcv = (parent.get("want") or {}).get(last["x"]) if last["k"] == "slice" else None
+            srcv = (parent.get("want") or {}).get(last["x"]) if last["k"] in ("slice", "strm") else None
             if isinstance(srcv, str) and not srcv.isascii():
-                ctx.violation(STR_SLICE_SIG, detail)
+                ctx.violation(STR_SLICE_SIG if last["k"] == "slice" else STR_METHOD_SIG % last["f"], detail)
             elif same(denil(got, c["want"]), c["want"]):
                 ctx.violation(NIL_SIG, detail)
             elif hit:
@@ -501,7 +512,7 @@ CLAIM16 = dict(
          "value; each TLC-generated program is run through CPython (spec != CPython -> exit 2) and through the real asp interpreter "
          "in-process, both as a BUILD file and inside a function of a subincluded build_defs file (optimiser path); whenever asp "
          "evaluates without error every value must equal the spec's (= CPython's).",
-    note="Only the modelled sub-language (no string methods/format beyond + * in == < slicing, no floats, no `/`); lazy Python 3 "
+    note="Only the modelled sub-language (no format()/%/f-strings, ten str methods with fixed arguments, no floats, no `/`); lazy Python 3 "
          "builtins (reversed, enumerate, zip, map, filter, range) are compared materialised; dict key order is only generated sorted. "
          "Programs asp rejects are outside the conditional property and are counted. Trusted: TLC, python3 as oracle, the rendering "
          "of statement records to source text (validated by the oracle comparison on every case).",
@@ -519,7 +530,7 @@ def run16(ctx):
                 ">=2 statements; each is compared spec vs CPython vs asp (BUILD file and build_defs function)")
     ctx.assumptions = [
         "CPython (python3) is the oracle; Python-3-lazy builtins are materialised when created",
-        "`/` (float result in Python 3), `is`, string methods and formatting are outside the modelled subset",
+        "`/` (float result in Python 3), `is` and string formatting are outside the modelled subset",
         "a program on which CPython raises, or which asp rejects, is outside the conditional property (counted)",
         "a difference already present in a shorter generated program is reported there, not again in its extensions",
     ]
@@ -530,7 +541,7 @@ def run16(ctx):
     ev = stats["expr_evaluated"] + stats["heap_evaluated_build"] + stats["heap_evaluated_defs"]
     rj = stats["expr_rejected"] + stats["heap_rejected_build"] + stats["heap_rejected_defs"]
     stats["rejected_fraction"] = round(rj / max(1, ev + rj), 4)
-    ctx.extra.update(asp=stats, uncovered=["string methods and format()", "if/elif statements", "dict comprehensions",
+    ctx.extra.update(asp=stats, uncovered=["str.format(), % formatting, f-strings and the remaining str methods", "if/elif statements", "dict comprehensions",
                                              "multi-argument user functions", "keyword arguments"])
     if ctx.replay_only is None and ev < 100:
         raise vlib.Infra("vacuous run: asp evaluated only %d programs" % ev)
